@@ -366,6 +366,10 @@ def list_popleft(ex, l, errname='pop from an empty deque'):
         nz = mk_bool(zint(ln) > 0)
         if ex.branch(nz):
             x = l.mid.elem(z3.simplify(zint(l.mid.start)))
+            for h, (fn, fmap) in ex.ghost.get('measures', {}).get(str(l.mid.tag), {}).items():
+                if fmap is not None:
+                    s0 = zint(l.mid.start)
+                    ex.fact(fn(s0, zint(ln)) == zint(fmap(x)) + fn(s0 + 1, zint(ln) - 1))
             l.mid = SymSeg(mk_int(zint(ln) - 1), l.mid.elem, mk_int(zint(l.mid.start) + 1), l.mid.tag)
             if isinstance(l.mid.length, int) and l.mid.length == 0:
                 l.mid = None
